@@ -1,6 +1,7 @@
 import math
 
 import numpy
+from scipy.special import eval_jacobi
 from . import circle
 
 def phaseFromZernikes(zCoeffs, size, norm="noll", rot=0):
@@ -85,16 +86,13 @@ def zernikeRadialFunc(n, m, r):
         ndarray: The Zernike radial function
     """
 
-    R = numpy.zeros(r.shape)
-    # Can cast the below to "int", n,m are always *both* either even or odd
-    for i in range(0, int((n - m) / 2) + 1):
-
-        R += numpy.array(r**(n - 2 * i) * (((-1)**(i)) *
-                         math.factorial(n - i)) /
-                         (math.factorial(i) *
-                          math.factorial(int(0.5 * (n + m) - i)) *
-                          math.factorial(int(0.5 * (n - m) - i))),
-                         dtype='float')
+    # R_n^m(r) = (-1)^k r^m P_k^(m,0)(1 - 2 r^2), k = (n - m)/2, P the Jacobi polynomial: the same polynomial as the
+    # factorial sum sum_i (-1)^i (n-i)! / (i! ((n+m)/2-i)! ((n-m)/2-i)!) r^(n-2i), whose terms cancel catastrophically
+    # in floating point for high orders (n = 40: 2e-2 at r = 1, n = 50: 75 instead of 1).
+    # n, m are always *both* either even or odd
+    k = int((n - m) / 2)
+    r = numpy.asarray(r, dtype='float')
+    R = (-1)**k * r**m * eval_jacobi(k, m, 0, 1 - 2 * r**2)
     return R
 
 
